@@ -47,6 +47,7 @@ var items = []item{
 	{"empty-message-full-from", `<message from='me@example.net/res'/>`, kElem},
 	{"iq-result-unknown-id", `<iq type='result' id='nobody' from='me@example.net'><q xmlns='urn:q'/></iq>`, kElem},
 	{"stanza-named-child", `<message><message xmlns='urn:fwd' from='me@example.net'><stream xmlns='urn:s'/></message></message>`, kElem},
+	{"long-message", "<message type='chat'>" + strings.Repeat("<x xmlns='urn:x'/>", 2100) + "<body>end</body></message>", kElem}, // more tokens than any fixed drain limit
 	{"keep-alive", " \n\t", kKeepAlive},
 	{"close", `</stream:stream>`, kClose},
 	{"stream-error", se, kStreamErr},
@@ -137,17 +138,21 @@ func body(maxItems int) nd.Body {
 			if it.kind == kElemTrunc && i != len(seq)-1 {
 				return nd.Result{Skip: true}
 			}
+			if it.name == "long-message" && len(seq) > 2 {
+				return nd.Result{Skip: true} // (costly to parse: in sequences of one or two items only)
+			}
 		}
 		prog := c.Choose(8, "handler-program")
-		rebound := c.Choose(2, "own-address-learned-during-negotiation") == 1
+		setup := c.Choose(3, "session-setup") // 0 plain, 1 own address learned during negotiation, 2 the peer's stream header carried a language
+		rebound := setup == 1
 		var names []string
 		var input strings.Builder
 		for _, it := range seq {
 			names = append(names, it.name)
 			input.WriteString(it.text)
 		}
-		c.Note("ns=%s items=%v handler-program=%d own-address-learned-during-negotiation=%v", ns, names, prog, rebound)
-		res := nd.Result{Outcome: "ok", NonTrivial: fmt.Sprintf("%v/%d/%v", names, prog, rebound)}
+		c.Note("ns=%s items=%v handler-program=%d own-address-learned-during-negotiation=%v header-language=%v", ns, names, prog, rebound, setup == 2)
+		res := nd.Result{Outcome: "ok", NonTrivial: fmt.Sprintf("%v/%d/%v", names, prog, setup)}
 		fail := func(sig, f string, a ...any) nd.Result {
 			res.Outcome = "violation"
 			res.Violation = &nd.Violation{Sig: sig, Msg: fmt.Sprintf("ns=%s items=%v handler-program=%d own-address-learned-during-negotiation=%v input=%q: ", ns, names, prog, rebound, input.String()) + fmt.Sprintf(f, a...)}
@@ -157,6 +162,9 @@ func body(maxItems int) nd.Body {
 		mk := sess.New
 		if rebound {
 			mk = sess.NewRebound
+		}
+		if setup == 2 {
+			mk = sess.NewLang
 		}
 		s, _, err := mk(ns, input.String())
 		if err != nil {
